@@ -470,6 +470,18 @@ def sarif_tool_detection(n_files: int, two0: bool, two1: bool, t00: int, t01: in
     return fin(ok)
 
 
+def result_files_reach_the_context(n_sarif: int, t0: int, t1: int, has_sonar: bool, has_dd: bool, hotspots: bool) -> bool:
+    """codemodder.run(): every result file named on the command line (--sarif by detected tool, --sonar-issues-json AND
+    --sonar-hotspots-json together, --defectdojo-findings-json) is in the tool map handed to the execution context -
+    none replaces another (real run() on the C20 skeleton, all files existing).
+    pre: 0 <= n_sarif <= 2
+    post: _
+    """
+    from harness import c20
+
+    return c20.run_status(True, n_sarif, t0, t1, True, True, has_sonar, True, has_dd, True, 0, 0, 0, 0, False, True, True, False, hotspots, False, True)
+
+
 def codeql_reader(r1: Tuple[int, int, int, int, int, int], r2: Tuple[int, int, int, int, int, int], tool1: int, tool2: int, shape: int) -> bool:
     """CodeQLResultSet.from_sarif: results of CodeQL runs arrive intact (optional region fields defaulted
     as documented), runs of other tools are ignored without disturbing the rest.
@@ -642,6 +654,7 @@ SPEC = {
         Xh("semgrep_reader", 120, 400),
         Xh("codeql_reader", 120, 400),
         Xh("sarif_tool_detection", 120, 300),
+        Xh("result_files_reach_the_context", 200, 400),
         Xh("defectdojo_reader", 90, 300),
         Xh("rule_id_extraction", 60, 120),
         Xh("planted_merge_defect", 60, 120, twin=False, expect="refuted"),
@@ -668,5 +681,6 @@ def warmup():
         codeql_reader((0, 0, 1, 2, 3, 4), (1, 1, 1, 2, 3, 4), 0, 1, sh)
     defectdojo_reader((0, 0, 1, 0), (1, 1, 2, 1), 2)
     sarif_tool_detection(2, True, False, 0, 1, 2, 3)
+    result_files_reach_the_context(1, 0, 1, True, True, True)
     sarif_tool_detection(2, True, False, 0, 0, 2, 3)
     rule_id_extraction(False, 1, 1, True)
